@@ -298,7 +298,8 @@ pub trait Suite: Sync {
     /// returns (enc, ct, tag)
     fn ss_seal_in_place(&self, mode: &ModeS, pk_r: &[u8], info: &[u8], pt: &[u8], aad: &[u8], rng: &mut ScriptRng) -> Res<(Vec<u8>, Vec<u8>, Vec<u8>)>;
     fn ss_open(&self, mode: &ModeR, sk_r: &[u8], enc: &[u8], info: &[u8], ct: &[u8], aad: &[u8]) -> Res<Vec<u8>>;
-    fn ss_open_in_place(&self, mode: &ModeR, sk_r: &[u8], enc: &[u8], info: &[u8], ct: &[u8], aad: &[u8], tag: &[u8]) -> Res<Vec<u8>>;
+    /// `buf`: the caller's buffer (ciphertext in; left as the library leaves it, also on failure)
+    fn ss_open_in_place(&self, mode: &ModeR, sk_r: &[u8], enc: &[u8], info: &[u8], buf: &mut Vec<u8>, aad: &[u8], tag: &[u8]) -> Res<Vec<u8>>;
     /// returns (shared secret, enc)
     fn encap(&self, pk_r: &[u8], sender: Option<(&[u8], &[u8])>, rng: &mut ScriptRng) -> Res<(Vec<u8>, Vec<u8>)>;
     fn decap(&self, sk_r: &[u8], pk_s: Option<&[u8]>, enc: &[u8]) -> Res<Vec<u8>>;
@@ -596,14 +597,13 @@ impl<A: AeadInfo + 'static, K: KdfInfo + 'static, M: KemInfo + 'static> Suite fo
         let enc: M::EncappedKey = dec("enc", enc)?;
         gh(|| hpke::single_shot_open::<A, K, M>(&mode, &sk_r, &enc, info, ct, aad))
     }
-    fn ss_open_in_place(&self, mode: &ModeR, sk_r: &[u8], enc: &[u8], info: &[u8], ct: &[u8], aad: &[u8], tag: &[u8]) -> Res<Vec<u8>> {
+    fn ss_open_in_place(&self, mode: &ModeR, sk_r: &[u8], enc: &[u8], info: &[u8], buf: &mut Vec<u8>, aad: &[u8], tag: &[u8]) -> Res<Vec<u8>> {
         let mode = mode_r::<M>(mode)?;
         let sk_r: M::PrivateKey = dec("skR", sk_r)?;
         let enc: M::EncappedKey = dec("enc", enc)?;
         let tag: AeadTag<A> = dec("tag", tag)?;
-        let mut buf = ct.to_vec();
-        gh(|| hpke::single_shot_open_in_place_detached::<A, K, M>(&mode, &sk_r, &enc, info, &mut buf, aad, &tag))?;
-        Ok(buf)
+        gh(|| hpke::single_shot_open_in_place_detached::<A, K, M>(&mode, &sk_r, &enc, info, &mut buf[..], aad, &tag))?;
+        Ok(buf.clone())
     }
     fn encap(&self, pk_r: &[u8], sender: Option<(&[u8], &[u8])>, rng: &mut ScriptRng) -> Res<(Vec<u8>, Vec<u8>)> {
         let pk_r: M::PublicKey = dec("pkR", pk_r)?;
